@@ -8,8 +8,9 @@ is trusted and done by the harness). OS strings are lists of units, a unit being
 or a byte that is not part of well-formed UTF-8, so `OsStr::to_str` is "no bad unit".
 
 `idOfPath` transcribes `id_of_path` (src/hot_reloading/watcher.rs), the loop body being driven by the
-regenerated `Gen.compTable`; `eventPaths`/`handleEvent` transcribe
-`NotifyEventHandler::handle_event`, driven by the regenerated `Gen.watchTable`; `pathOf`
+regenerated `Gen.compTable` and the statements around it by the regenerated `Gen.idShape`;
+`batchOf`/`handleEvent` transcribe `NotifyEventHandler::handle_event`, driven by the regenerated
+`Gen.watchTable` (the rest of its loop body is compared literally by `amx`); `pathOf`
 transcribes `path_of_entry` (src/utils/private.rs). `isDir` is the state of the file system when
 the event is handled (a parameter: the file system is not modelled).
 -/
@@ -115,33 +116,58 @@ def runComps (buf : Buf) : Path → Option Buf
   | [] => some buf
   | c :: cs => (compStep buf c).bind fun b => runComps b cs
 
-def idOfPath (root path : Path) (isDir : Bool) : Option Ent :=
+/-- `file_name` / `file_stem` of the last component. -/
+def namePart (np : NamePart) (name : OsName) : OsName :=
+  match np with
+  | .whole => name
+  | .stem => (splitName name).1
+
+/-- The extension of a file: `match path.extension()` refusing the empty one (`name.` is not the
+path of `File("name", "")`), or plain `extension_of`, by the regenerated shape. -/
+def fileExt (name : OsName) : Option (List Char) :=
+  if idShape.emptyExtRefused then
+    match (splitName name).2 with
+    | none => some []
+    | some e => if e = [] then none else toStr? e
+  else extensionOf name
+
+/-- The kind of the entry: what the notification says (`hint`) if it says something, else what the
+file system says (`isDir`). -/
+def kindOf (hint : Option Bool) (isDir : Bool) : Bool :=
+  if idShape.kindFromHint then hint.getD isDir else isDir
+
+def idOfPath (root path : Path) (hint : Option Bool) (isDir : Bool) : Option Ent :=
+  if idShape.rootIsEmptyDir = true ∧ path = root then some (.dir []) else
   (parentOf path).bind fun par =>
   (stripPrefix root par).bind fun rel =>
   (runComps [] rel).bind fun buf =>
   (fileName path).bind fun name =>
-  (toStr? (splitName name).1).bind fun stem =>
-  (push buf stem).bind fun id =>
-  if isDir then some (.dir id) else (extensionOf name).map fun ext => .file id ext
+  if kindOf hint isDir then
+    (toStr? (namePart idShape.dirName name)).bind fun s =>
+    (push buf s).map fun id => .dir id
+  else
+    (toStr? (namePart idShape.fileName name)).bind fun s =>
+    (push buf s).bind fun id =>
+    (fileExt name).map fun ext => .file id ext
 
 /-! ## `NotifyEventHandler::handle_event` -/
 
-/-- The element of `vec![..]` an arm names. -/
-def sel (path : Path) (par? : Option Path) : Which → Option Path
-  | .path => some path
-  | .parent => par?
+/-- `DirEntry::parent_id` (src/source/mod.rs). -/
+def parentId (id : List Char) : Option (List Char) :=
+  if id = [] then none
+  else some (match splitLast '.' id with | some (b, _) => b | none => [])
 
-/-- The paths one notified path is expanded to; `none` = the handler returns. -/
-def eventPaths (k : EvKind) (path : Path) : Option (List Path) :=
-  match watchTable k with
-  | .ret => none
-  | .paths w n =>
-    let par? := parentOf path
-    some ((if par?.isSome then w else n).filterMap (sel path par?))
+/-- `once(entry).chain(parent)`: the entry and, if asked for, the directory of its parent id. -/
+def withParentOf (withParent : Bool) (e : Ent) : List Ent :=
+  e :: (if withParent then ((parentId e.id).map Ent.dir).toList else [])
 
-/-- `paths × roots` (paths outer, roots inner) through `id_of_path`, `filter_map`ped. -/
-def batchOf (roots : List Path) (isDir : Path → Bool) (ps : List Path) : List Ent :=
-  ps.flatMap fun p => roots.filterMap fun r => idOfPath r p (isDir p)
+/-- What one notified path is translated to: under each root (in order) the entry `id_of_path`
+gives, followed by its parent directory. -/
+def batchOf (roots : List Path) (withParent : Bool) (hint : Option Bool) (isDir : Bool) (p : Path) : List Ent :=
+  roots.flatMap fun r =>
+    match idOfPath r p hint isDir with
+    | none => []
+    | some e => withParentOf withParent e
 
 structure Handler where
   roots : List Path
@@ -149,20 +175,21 @@ structure Handler where
   deriving Repr
 
 /-- One `notify::Event{kind, paths}` handled while the receiving end of the event channel is
-`connected` or not. Returns the handler and the messages that were delivered (one per notified
-path whose expansion is not empty — `send_multiple` sends even an empty batch). A failed send
-drops the watcher. -/
+`connected` or not. Returns the handler and the messages that were delivered: one per notified
+path, even when the batch is empty — except that `send_multiple` sends nothing when the iterator
+is known to be empty, which is the case exactly when there is no root. A failed send drops the
+watcher. -/
 def handleEvent (h : Handler) (connected : Bool) (isDir : Path → Bool) (k : EvKind) :
     List Path → Handler × List (List Ent)
   | [] => (h, [])
   | p :: ps =>
-    match eventPaths k p with
-    | none => (h, [])
-    | some [] => handleEvent h connected isDir k ps
-    | some (e :: es) =>
-      if connected then
+    match watchTable k with
+    | .ret => (h, [])
+    | .act wp hint =>
+      if h.roots = [] then handleEvent h connected isDir k ps
+      else if connected then
         let r := handleEvent h true isDir k ps
-        (r.1, batchOf h.roots isDir (e :: es) :: r.2)
+        (r.1, batchOf h.roots wp hint (isDir p) p :: r.2)
       else
         handleEvent { h with hasWatcher := false } false isDir k ps
 
@@ -200,10 +227,5 @@ def pathOf (root : Path) : Ent → Option Path
   | .file id ext =>
     if '/' ∈ id ∨ '/' ∈ ext then none
     else some (setExtension ((splitDot id).foldl pushSeg root) ext)
-
-/-- `DirEntry::parent_id` (src/source/mod.rs). -/
-def parentId (id : List Char) : Option (List Char) :=
-  if id = [] then none
-  else some (match splitLast '.' id with | some (b, _) => b | none => [])
 
 end AmVerif.Model.Watch
